@@ -75,7 +75,7 @@ class Side:
 
 def machine_shard(seed: int, examples: int, steps: int, known: list[str]) -> dict:
     from hypothesis import strategies as st
-    from hypothesis.stateful import RuleBasedStateMachine, precondition, rule
+    from hypothesis.stateful import RuleBasedStateMachine, initialize, precondition, rule
     from pynenc import context
     from pynenc.invocation.status import InvocationStatus as S
     from pynenc.trigger.conditions import ValidCondition
@@ -142,9 +142,18 @@ def machine_shard(seed: int, examples: int, steps: int, known: list[str]) -> dic
         def n(self) -> int:
             return len(self.sides[0].ids)
 
+        @initialize(pro=st.booleans())
+        def prologue(self, pro):
+            """Every second history starts from a state with two invocations of one call, one of them finished
+            (so that later auto-purges, call lookups and counts meet a shared call with a purged member)."""
+            if pro:
+                self.register("keyed", 0)
+                self.register("keyed", 0)
+                self.finish(0, "SUCCESS")
+
         # ------------------------------------------------------------------ orchestrator: registration / status
         @precondition(lambda self: self.n() < 8)
-        @rule(t=st.sampled_from(TASK_FUNCS), a=st.integers(0, 2))
+        @rule(t=st.sampled_from(TASK_FUNCS), a=st.sampled_from([0, 0, 1, 2]))
         def register(self, t, a):
             self._t("register", t, a)
 
@@ -292,6 +301,8 @@ def machine_shard(seed: int, examples: int, steps: int, known: list[str]) -> dic
         @rule(i=st.integers(0, 7), inc=st.booleans())
         def retries(self, i, inc):
             i = i % self.n()
+            if self.model_status[i] == "PURGED":
+                return  # mutations addressed to an auto-purged invocation are outside the caller contract
             self._t("retries", i, inc)
             if inc:
                 self.both("increment_invocation_retries", lambda sd: sd.app.orchestrator.increment_invocation_retries(sd.ids[i]), mutation=True)
@@ -324,9 +335,11 @@ def machine_shard(seed: int, examples: int, steps: int, known: list[str]) -> dic
             self.both("get_pending_invocations_for_recovery", lambda sd: sorted(map(str, sd.idxs(sd.app.orchestrator.get_pending_invocations_for_recovery()))))
             self.both("get_running_invocations_for_recovery", lambda sd: sorted(map(str, sd.idxs(sd.app.orchestrator.get_running_invocations_for_recovery()))))
 
-        @rule()
-        def auto_purge(self):
-            self._t("auto_purge")
+        @rule(late=st.booleans())
+        def auto_purge(self, late):
+            self._t("auto_purge", late)
+            if late:
+                clock.advance(3601.0)  # past auto_final_invocation_purge_hours (1 h)
             self.both("auto_purge", lambda sd: sd.app.orchestrator.auto_purge(), mutation=True)
             # everything a user can ask about the survivors must still agree
             for i in range(self.n()):
@@ -392,6 +405,8 @@ def machine_shard(seed: int, examples: int, steps: int, known: list[str]) -> dic
         @rule(i=st.integers(0, 7), big=st.booleans(), exc=st.booleans())
         def store_outcome(self, i, big, exc):
             i = i % self.n()
+            if self.model_status[i] == "PURGED":
+                return
             self._t("store_outcome", i, big, exc)
             val = {"v": i, "pad": "x" * (200 if big else 1)}
             if exc:
